@@ -102,6 +102,7 @@ func checkC14(w *World, r *Report) {
 	checkC14Header(w, r, ri)
 	checkC14Paths(w, r, ri)
 	checkC14Capabilities(w, r, ri)
+	checkC14HijackedGuard(w, r, ri)
 	checkC14Helpers(w, r)
 }
 
@@ -552,6 +553,28 @@ func checkC14Capabilities(w *World, r *Report, ri *recInfo) {
 		}
 	})
 	ru.Check("(*recorder).Hijack flag after success", w.Pos(hj.Pos()), "hijacked is set only when the delegated Hijack returned no error", okS, whyS)
+}
+
+// checkC14HijackedGuard: once the connection was handed over, the recorder must not forward anything. Write and
+// WriteString test the flag; every other method that forwards body bytes to the underlying writer has to as well,
+// fast path or not (sibling agreement).
+func checkC14HijackedGuard(w *World, r *Report, ri *recInfo) {
+	ru := r.Rule("C14.6", "nothing is forwarded after a hijack: every call of a recorder method that hands body bytes to the underlying writer (Write, WriteString, ReadFrom, io.WriteString/Copy on it) is dominated by a test that the recorder is not hijacked", 3)
+	for _, fn := range w.MethodsOf("recorder") {
+		if len(fn.Params) == 0 {
+			continue
+		}
+		recv := ssa.Value(fn.Params[0])
+		for _, c := range ri.forwardingCalls(fn) {
+			guarded := false
+			for _, ft := range factsAtBlock(c.Block()) {
+				if b, f, ok := loadedField(ft.Cond); ok && f == ri.hijacked && stripIface(seeThrough(b)) == recv && !ft.Val {
+					guarded = true
+				}
+			}
+			ru.Check("forward in "+FuncName(fn), w.Pos(c.Pos()), "reached only when r.hijacked is false", guarded, orDefault(map[bool]string{true: "guarded"}[guarded], "bytes are handed to the underlying writer without a test of the hijacked flag (the sibling methods return http.ErrHijacked)"))
+		}
+	}
 }
 
 func checkC14Helpers(w *World, r *Report) {
